@@ -87,6 +87,9 @@ func (e *Engine) VerifyFunction(fn *ssa.Function, con *Contract, prof *Profile) 
 	for k := range fr.retGuards {
 		rst := fr.retStates[k]
 		g := fr.retGuards[k]
+		if k < len(fr.retPos) {
+			c.curPos = fr.retPos[k]
+		}
 		env := c.newEnv(fr, rst)
 		env.results = fr.retVals[k]
 		env.resNames = resNames
